@@ -626,6 +626,7 @@ func (n *Nodis) signalModifiedKey(key string, meta *metadata) {
 	// the connections' flag maps are written here: exclusive, two writers may signal the same
 	// connection at the same time
 	n.store.watchMu.Lock()
+	verifTrace("signal", &key, key, nil, true)
 	clients, ok := n.store.watchedKeys.Get(key)
 	if ok {
 		clients.ForRange(func(c *redis.Conn) bool {
